@@ -88,17 +88,31 @@ def gen_case(rng):
         return text
     order = rng.random() < 0.25     # calls before the definitions
     body_calls = []
-    for _ in range(rng.randrange(1, 5)):
+    labels = []
+    for ci in range(rng.randrange(1, 5)):
         name, body, kinds = rng.choice(macs)
         args = [arg(rng, k) for k in kinds]
         spelled = rng.choice([name, name.lower(), name.upper()])
+        # "at that point": the call may be the first thing after an .org, a segment switch or a label
+        r = rng.random()
+        ctx = []
+        if r < 0.25:
+            ctx = [".org %d" % (200 * (ci + 1) + rng.randrange(0, 50))]
+        elif r < 0.35:
+            ctx = [".dseg", ".byte 1", ".cseg"]
+        elif r < 0.5:
+            labels.append("here%d" % ci)
+            ctx = ["here%d:" % ci]
+        body_calls += ctx
+        expanded += ctx
         body_calls.append("  %s %s" % (spelled, ", ".join(args)) if args else "  " + spelled)
         expanded += expand(name, args)
         if rng.random() < 0.3:
             body_calls.append("  nop")
             expanded.append("  nop")
-    prog = prelude + (body_calls + defs if order else defs + body_calls)
-    return "\n".join(prog) + "\n", "\n".join(prelude + expanded) + "\n"
+    tail = ["  .dw " + ", ".join(labels)] if labels else []
+    prog = prelude + (body_calls + tail + defs if order else defs + body_calls + tail)
+    return "\n".join(prog) + "\n", "\n".join(prelude + expanded + tail) + "\n"
 
 
 def run(res):
